@@ -156,8 +156,9 @@ def programs(spec, v, trace, protect, accel_cfg, t=0):
 
     def cp(a, b):
         return "2.%x.%x" % (a, b)
-    if not trace:       # at most 20 elements: the entry returns after writing type and mode (before the accelerate flag is touched)
-        return "%s,%s" % (w(0, v["T"]), w(1, int(f[3], 16))), "%s,%s" % (w(0, v["T"]), w(1, 1 if mode >= PW_REL else 0))
+    if not trace or (v["tiny"] and trace == [3]):       # at most 20 elements: the entry returns after writing type and mode (before the accelerate flag is touched)
+        lead = "-;" if trace else ""          # a fixed interval count: the state derivation (ending in yield point 3) comes first
+        return lead + "%s,%s" % (w(0, v["T"]), w(1, int(f[3], 16))), (("%s;" % w(7, 0)) if trace else "") + "%s,%s" % (w(0, v["T"]), w(1, 1 if mode >= PW_REL else 0))
     hb, rb = [[w(0, v["T"]), w(1, v["M"]), w(2, v["B"]), w(3, v["MN"]), w(4, v["MX"])]], [[w(0, v["T"]), w(1, mclass)]]
     # global 6 = "accelerate flag cleared" (0 = as configured): every call saves the current value in a local (slot 100+t) at entry and
     # copies it back on return -- what it saved may already be another call's cleared value; cleared by every call whose pw_rel argument
@@ -169,6 +170,11 @@ def programs(spec, v, trace, protect, accel_cfg, t=0):
         rb[0].append(r(6))
     if protect:
         rb[0] += [w(3, v["MN"]), w(4, v["MX"])]
+    if trace[0] == 3:
+        # a fixed interval count in the configuration: the entry derives the quantisation state first (updateQuantizationInfo, which ends in
+        # yield point 3) and makes its own writes after that
+        hb.insert(0, []); rb.insert(0, [w(7, v["CAP"])])
+        trace = trace[1:]
     in_tdps = False
     for p in trace:
         if p == 3:
